@@ -3,6 +3,7 @@ package props
 import (
 	"fmt"
 	"math/big"
+	"strings"
 	"testing"
 
 	"pgregory.net/rapid"
@@ -14,7 +15,7 @@ import (
 func TestC05Stateful(t *testing.T) {
 	theT = t
 	col := ev.New("C05", "stateful",
-		"rapid state machine: committee (= Alphabet) sizes 1/4/7; ContainerFee and ContainerAliasFee changed through Netmap setConfig between puts (0,1,7,12345,10^8); before each put the owner's NEOFS balance is set to need-1 / need / need+1 / 0 / large where need=(fee[+aliasFee])*N; named and unnamed, fresh and repeated puts; oracle: success iff balance >= need; on success owner -need, every Alphabet standard account +fee per node, nobody else changes, supply unchanged, N TransferX with details 0x10||cid, container stored; on failure the full snapshot of all contracts is unchanged; non-trivial = a put at need-1 or need with fee>0 and N>1",
+		"rapid state machine: committee (= Alphabet) sizes 1/4/7; ContainerFee and ContainerAliasFee changed through Netmap setConfig between puts (0,1,7,12345,10^8); before each put the owner's NEOFS balance is set to need-1 / need / need+1 / 0 / large where need=(fee[+aliasFee])*N; named and unnamed, fresh and repeated puts, names reused after the deletion of their previous container (the domain stays registered); oracle: success iff balance >= need; on success owner -need, every Alphabet standard account +fee per node, nobody else changes, supply unchanged, N TransferX with details 0x10||cid, container stored; on failure the full snapshot of all contracts is unchanged; non-trivial = a put at need-1 or need with fee>0 and N>1",
 		"owners are never Alphabet accounts", "every other reason for a put to fail is excluded by construction (fresh or live-unnamed blob, valid free name, Alphabet witness)", "fee settings are non-negative")
 	runRapid(t, col, func(rt *rapid.T, h *ev.History) {
 		n := rapid.SampledFrom([]int{1, 4, 4, 7}).Draw(rt, "n")
@@ -30,6 +31,8 @@ func TestC05Stateful(t *testing.T) {
 		}
 		salt := 0
 		var liveUnnamed []*cntBlob
+		var liveNamed []*cntBlob
+		var freeNames []string // names whose domain exists in NNS but holds no container any more
 		steps := rapid.IntRange(1, 14).Draw(rt, "steps")
 		for s := 0; s < steps; s++ {
 			if rapid.IntRange(0, 3).Draw(rt, "changeFee") == 0 {
@@ -47,6 +50,17 @@ func TestC05Stateful(t *testing.T) {
 				h.Op("setConfig %s=%d", key, val)
 				h.Mark("fee-changed")
 			}
+			// sometimes delete a named container first: its domain stays registered and the name becomes reusable
+			if len(liveNamed) > 0 && rapid.IntRange(0, 2).Draw(rt, "deleteNamed") == 0 {
+				i := rapid.IntRange(0, len(liveNamed)-1).Draw(rt, "whichNamed")
+				d := liveNamed[i]
+				if o := w.c.Invoke(w.alpha, w.cnt, "delete", d.id, detBytes("dsig", 64), []byte{}); !o.Halt {
+					fail("C05 harness: delete: %s", o)
+				}
+				liveNamed = append(liveNamed[:i], liveNamed[i+1:]...)
+				freeNames = append(freeNames, d.name)
+				h.Op("delete %s (its name %q stays registered in NNS)", d.label, d.name)
+			}
 			// choose the put
 			var b *cntBlob
 			repeated := len(liveUnnamed) > 0 && rapid.IntRange(0, 4).Draw(rt, "repeat") == 0
@@ -57,6 +71,13 @@ func TestC05Stateful(t *testing.T) {
 				name := ""
 				if rapid.Bool().Draw(rt, "named") {
 					name = fmt.Sprintf("name%d", salt)
+					if len(freeNames) > 0 && rapid.Bool().Draw(rt, "reuseName") {
+						// a name whose domain is already registered (its previous container was deleted)
+						i := rapid.IntRange(0, len(freeNames)-1).Draw(rt, "whichFree")
+						name = freeNames[i]
+						freeNames = append(freeNames[:i], freeNames[i+1:]...)
+						h.Mark("name-reused-after-delete")
+					}
 				}
 				b = w.mkBlob(rapid.IntRange(0, 2).Draw(rt, "owner"), rapid.SampledFrom([]int{0, 3}).Draw(rt, "off"), 1000+salt, name)
 			}
@@ -116,11 +137,17 @@ func TestC05Stateful(t *testing.T) {
 				if d := chainkit.Diff(preSnap, w.c.Snapshot()); len(d) != 0 {
 					fail("C05: a put that could not be paid changed state: %v", d)
 				}
+				if b.name != "" && !strings.HasPrefix(b.name, fmt.Sprintf("name%d", salt)) {
+					freeNames = append(freeNames, b.name) // still free
+				}
 				continue
 			}
 			h.Mark("paid")
 			if !repeated && b.name == "" {
 				liveUnnamed = append(liveUnnamed, b)
+			}
+			if !repeated && b.name != "" {
+				liveNamed = append(liveNamed, b)
 			}
 			post := readBal(w.c, w.bal)
 			if post.supply.Cmp(preBal.supply) != 0 {
